@@ -96,10 +96,10 @@ def rule_get_addr(ctx, rep, rid='R2'):
     ok = len(nx) == 1 and not other and count_events(b, lambda x: x in nx) <= {0, 1}
     rep.ob(rid, 'first-address', ok, b.where(nx[0]) if nx else b.where(), 'takes to_socket_addrs()?.next(): the first address' if ok else 'the destination is not the first resolved address')
     if ok:
-        ok_e, err_e, _ = outcomes(T, nx[0])
-        rn = ret_terms(T, err_e)
-        ro = ret_terms(T, ok_e)
         nct = norm(T.call_term(nx[0]))
+        rc = result_cases(T, nx[0])
+        rn, ro = rc['err'], rc['ok']
+        # `?` on to_socket_addrs() returns before next() is reached: those returns carry no assumption about next()
         g = bool(rn) and all(r[0] == 'adt' and r[2] == 'Err' and any(y[0] == 'adt' and y[2] == 'InvalidInput' for y in walk(r)) for r in rn) and \
             ro == {('adt', 'core::result::Result', 'Ok', (('0', field_of(('payload', nct, 'Some'), '0', 0)),))}
         rep.ob(rid, 'none-is-invalid-input', g, b.where(), 'no address => InvalidInput; Some(a) => Ok(a)')
@@ -136,17 +136,30 @@ def rule_pairing(ctx, rep, rid='R1'):
             for u in mine:
                 uct = norm(T.call_term(u))
                 ln = uct[2][2]
-                okl = ln[0] == 'call' and ln[1].endswith('::len') and peel(ln[2][0]) == peel(_payload_root(sct[2][1]))
+                okl = ln[0] == 'call' and ln[1].endswith('::len') and strip_views(ln[2][0]) == strip_views(sct[2][1])
                 rep.ob(rid, '%s/dropped-size-is-the-datagram-size' % inst, okl, b.where(u), 'update(.., len of the very buffer sent)' if okl else 'update is given %s as size of a %s datagram' % (fmt(ln)[:60], fmt(sct[2][1])[:60]))
                 oks = self_field_name(uct[2][0]) == 'stats'
                 rep.ob(rid, '%s/uses-own-stats' % inst, oks, b.where(u), 'recorded in self.stats')
     rep.floor(rid, 'socket send sites', n, 4)
     # who may call incr_*
     bad = []
+    # private helpers of SocketStats that are only called (transitively) from update count as part of update
+    region = {upd[0].path}
+    changed = True
+    while changed:
+        changed = False
+        for x in cad.all_bodies:
+            if x.path in region or not (x.impl_self and type_head(x.impl_self) == SS) or x.j.get('reachable'):
+                continue
+            callers = set(y.path for y in cad.all_bodies for _, t in y.calls() if t.get('resolved') == x.path)
+            if callers and callers <= region and any(cc.path in region for cc in cad.all_bodies if any(t.get('resolved') == x.path for _, t in cc.calls())):
+                if not x.name.startswith('incr_'):
+                    region.add(x.path)
+                    changed = True
     for x in cad.all_bodies:
         for bi, t in x.calls():
             r = t.get('resolved') or ''
-            if r.startswith(SS + '::incr_') and x.path != upd[0].path:
+            if r.startswith(SS + '::incr_') and x.path not in region:
                 bad.append((x, bi))
     rep.ob(rid, 'counters-incremented-only-by-update', not bad, bad[0][0].where(bad[0][1]) if bad else '', 'incr_* are called from update only' if not bad else 'counters also bumped from %s' % [x.short() for x, _ in bad])
 
@@ -226,8 +239,8 @@ def rule_classification(ctx, rep, rid='R2'):
     check_side(ok_s, {'bytes_sent': amt_n, 'packets_sent': amt_one}, 'sent')
     check_side(er_s, {'bytes_dropped': amt_len, 'packets_dropped': amt_one}, 'dropped')
     r_ok, r_er = ret_terms(T, ok_s), ret_terms(T, er_s)
-    g = r_ok == {('adt', 'core::result::Result', 'Ok', (('0', n_ok),))} and \
-        r_er == {('adt', 'core::result::Result', 'Err', (('0', field_of(('payload', ('param', 2), 'Err'), '0', 0)),))}
+    g = (r_ok == {('adt', 'core::result::Result', 'Ok', (('0', n_ok),))} or r_ok == {('param', 2)}) and \
+        (r_er == {('adt', 'core::result::Result', 'Err', (('0', field_of(('payload', ('param', 2), 'Err'), '0', 0)),))} or r_er == {('param', 2)})
     rep.ob(rid, 'update/returns-result-unchanged', g, b.where(), 'update returns the socket result unchanged')
     # incr_X is a single fetch_add on field X
     for fld in ('bytes_sent', 'packets_sent', 'bytes_dropped', 'packets_dropped'):
@@ -247,7 +260,7 @@ def rule_shared_counters(ctx, rep, rid='R3'):
     b = one(rep, rid, 'From<&SocketStats> for SinkStats', fr)
     if b is not None:
         rep.analysed(b)
-        rts = ret_terms(Terms(b), [0])
+        rts = ret_terms(Terms(inl(cad, b)), [0])
         ok = False
         if len(rts) == 1 and list(rts)[0][0] == 'adt':
             ok = all(term_callee_is(v, 'core::sync::atomic::Atomic::load') and self_field_name(v[2][0]) == n for n, v in list(rts)[0][3]) and len(list(rts)[0][3]) == 4
